@@ -41,24 +41,30 @@ def run_check(pid, tier, seed):
 
 
 def replay(path):
+    """Re-execute a replay file against the current /repo: the check is re-run with the recorded seed
+    and tier (every case is derived from them), and the recorded failing input is looked for again."""
     rp = json.loads(Path(path).read_text())
     pid = rp['property']
-    mod = importlib.import_module(f'p{pid[1:]}')
     if rp.get('kind') == 'no-failing-input-found':
         print(json.dumps(rp, indent=1)[:4000])
-        print("replay: this file names proofs/correspondences that stopped checking; "
-              f"re-run ./check {pid} to see whether they check now")
-        return 0
-    ctx = Ctx(pid, 'quick', rp.get('seed', 0))
-    try:
-        if not hasattr(mod, 'replay'):
-            print("no replay function for", pid)
-            return 2
-        res = mod.replay(ctx, rp)
-        print(json.dumps(res, indent=1, default=str)[:6000])
-        return 1 if res.get('fails') else 0
-    finally:
-        ctx.cleanup()
+        print("replay: this file names proofs/correspondences that stopped checking; re-running the check")
+        return run_check(pid, rp.get('tier', 'quick'), rp.get('seed', 0))
+    sig = rp.get('signature')
+    print(f"replay: property {pid}, signature {sig!r}, seed {rp.get('seed')}, tier {rp.get('tier')}")
+    print(json.dumps(dict(case=rp.get('case'), expected=rp.get('expected'), observed=rp.get('observed')),
+                     indent=1, default=str)[:3000])
+    status = run_check(pid, rp.get('tier', 'quick'), rp.get('seed', 0))
+    again = []
+    for f in sorted((VERIF / 'out' / 'replays').glob(f'{pid}_input_*.json')):
+        try:
+            again.append(json.loads(f.read_text()).get('signature'))
+        except Exception:
+            pass
+    if sig in again:
+        print(f"replay: REPRODUCED ({sig})")
+        return 1
+    print(f"replay: not reproduced on the current tree (check exit status {status}; signatures now: {again})")
+    return 0 if status == 0 else status
 
 
 def main():
